@@ -11,6 +11,7 @@ package c04
 
 import (
 	"encoding/hex"
+	"encoding/json"
 	"fmt"
 	"os"
 	"path/filepath"
@@ -724,6 +725,14 @@ func evaluate(c *tcase, honour bool) (res result) {
 		return
 	}
 	res.class("entry:parser")
+	// input patterns of repaired findings (known_test.go): shown in the
+	// histogram so that it is visible that the search exercises them
+	if facts.branchInClosureInLoop {
+		res.class("pattern-of-repaired:F5")
+	}
+	if facts.assignToBuiltinName {
+		res.class("pattern-of-repaired:F7")
+	}
 	if main.bad != "" {
 		res.fail = "parser.ParseFile(main): " + main.bad
 		return
@@ -1101,7 +1110,28 @@ func TestRegressions(t *testing.T) {
 			if err != nil {
 				t.Fatalf("decode %s: %v", f, err)
 			}
-			report(t, test, c, evaluate(c, false))
+			res := evaluate(c, false)
+			// a replay may name the outcome the repair established
+			// (top-level "expect_class": e.g. "compile:error" for a defect
+			// that also miscompiled silently): no panic is not enough then
+			var x struct {
+				ExpectClass string `json:"expect_class"`
+			}
+			if raw, err := os.ReadFile(f); err == nil {
+				_ = json.Unmarshal(raw, &x)
+			}
+			if res.fail == "" && x.ExpectClass != "" {
+				found := false
+				for _, cl := range res.classes {
+					if cl == x.ExpectClass {
+						found = true
+					}
+				}
+				if !found {
+					res.fail = fmt.Sprintf("regression replay expects outcome %q, got %v", x.ExpectClass, outcomeClasses(res.classes))
+				}
+			}
+			report(t, test, c, res)
 		})
 		ev.Note("regression replays run")
 	}
